@@ -19,6 +19,15 @@ VFUN_TARGET = os.path.join(common.TARGET, 'vfun')
 
 
 def build_vfun():
+    global VFUN_DIR
+    if common.REPO != '/repo' and not VFUN_DIR.startswith(common.TARGET):
+        # a scratch copy of the helper crate that depends on the scratch repository
+        dst = os.path.join(common.TARGET, 'vfun-src')
+        shutil.rmtree(dst, ignore_errors=True)
+        shutil.copytree(VFUN_DIR, dst)
+        ct = os.path.join(dst, 'Cargo.toml')
+        open(ct, 'w').write(open(ct).read().replace('path = "/repo"', 'path = "%s"' % common.REPO))
+        VFUN_DIR = dst
     lock = os.path.join(VFUN_DIR, 'Cargo.lock')
     src_lock = os.path.join(common.REPO, 'Cargo.lock')
     if not os.path.exists(lock) or open(lock).read().count('name = ') < 5:
